@@ -46,7 +46,7 @@ func (a *Attributes) Marshal() (string, error) {
 // It guarantees the output fields are all valid in format when error is nil.
 func Unmarshal(attrsStr string) (*Attributes, error) {
 	attrs := &Attributes{}
-	if err := json.Unmarshal([]byte(attrsStr), &attrs); err != nil {
+	if err := json.Unmarshal([]byte(attrsStr), attrs); err != nil {
 		// TODO: cleanup UnmarshalLegacy once we upgrade the gensign IFVer to 7.
 		return UnmarshalLegacy(attrsStr)
 	}
